@@ -375,6 +375,8 @@ LONG_STRINGS = (
     '01111111111', '10000000000', '00000000101', '1' * 20, '1' * 9 + '2',
     '7' * 9 + '8', 'F' * 9 + 'G', '1' * 9 + '.', '1' * 8 + '.1',
     '-111111111', ' 111111111', '111111111 ', '1' * 5 + '.' + '1' * 5,
+    # words: texts whose truth value is not their emptiness
+    'false', 'FALSE', 'False', 'true', 'TRUE', 'fa', 'FACE', 'no', '0x1F',
 )
 FRACTIONS = (0.5, 1.5, 10.1, 101.5, 0.1, 1.01, 111.111, 7.7, 1e-3)
 LONG_INTS = (11111111111, 10000000000, 77777777777, 1234567, 99999999999,
